@@ -184,7 +184,7 @@ func TestC06Random(t *testing.T) {
 			inner := rapid.SliceOfN(rapid.SampledFrom([]string{"h", "h", "f", "g", "s"}), 0, 2).Draw(t, "inner")
 			ids := append(inner, rapid.SampledFrom([]string{"f", "g", "f", "g", "h"}).Draw(t, "fmt"), rapid.SampledFrom([]string{"s", "u"}).Draw(t, "sink"))
 			return model.Op{K: "regpipe", ET: rapid.SampledFrom(ets).Draw(t, "et"), P: rapid.SampledFrom(pids).Draw(t, "p"), IDs: ids,
-				Pol: rapid.SampledFrom([]int{0, 0, 0, 0, 1, 2}).Draw(t, "ppol")}
+				Pol: rapid.SampledFrom([]int{0, 0, 0, 0, 1, 2}).Draw(t, "ppol"), Dress: rapid.SampledFrom([]int{0, 0, 0, 1, 2, 3}).Draw(t, "pdress")}
 		case 2:
 			return model.Op{K: "rmpipe", ET: rapid.SampledFrom(ets).Draw(t, "et"), P: rapid.SampledFrom(pids).Draw(t, "p")}
 		case 3:
